@@ -83,8 +83,14 @@ def check_step(rec):
 
 def run_hist(h, acc=None):
     """Replay a history; return None or (step, kind, signature, detail)."""
-    walk = mdibwalk.Walk()
+    kwargs = {}
+    if h and h[0].startswith('cfg:instance_id='):
+        v = h[0].split('=')[1]
+        kwargs['instance_id'] = None if v == 'None' else int(v)
+    walk = mdibwalk.Walk(provider_kwargs=kwargs or None)
     for i, name in enumerate(h):
+        if name.startswith('cfg:'):
+            continue
         rec = walk.step(name)
         if acc is not None:
             acc.transition()
@@ -135,6 +141,10 @@ def run(ctx):
                 + hist.sequences_from(PRE_STATES, core, 2) + hist.sequences(A.DESCR_CTX[:12], 3))
         ctx.note('bounds', {'depth_full_alphabet': 2, 'depth_core_alphabet': 3, 'core': len(core),
                             'pre_states': len(PRE_STATES), 'depth_from_pre_states_core': 2, 'alphabet': len(names)})
+    # the provider's InstanceId: absent, 0 (falsy but a value) and a large one
+    for iid in ('None', '0', str(2 ** 40)):
+        jobs += [[f'cfg:instance_id={iid}', e] for e in A.CORE]
+        jobs += [[f'cfg:instance_id={iid}', 'metric(N1,1)', 'create-metric', 'metric(N1,2)']]
     jobs = ctx.rotate(jobs)
     ctx.note('histories', len(jobs))
     ctx.pmap(_work, jobs)
